@@ -305,6 +305,7 @@ sposNew(FileName fname, Length flno, Length glno, Length cno)
 {
 	FileName prevName;
 	int	 prevGlno;
+	Length	 prevFlno;
 
 	assert(gloLineTbl);
 
@@ -313,13 +314,21 @@ sposNew(FileName fname, Length flno, Length glno, Length cno)
 	if (gloPos) {
 		prevName = gloLineTbl[gloPos - 1].fn;
 		prevGlno = gloLineTbl[gloPos - 1].glno;
+		prevFlno = gloLineTbl[gloPos - 1].flno;
 	}
 	else {
 		prevName = gloLineTbl[gloPos].fn;
 		prevGlno = gloLineTbl[gloPos].glno;
+		prevFlno = gloLineTbl[gloPos].flno;
 	}
 
-	if (glno <= prevGlno || prevName == 0 || !fnameEqual(fname, prevName))
+	/*
+	 * Start a new segment unless the last one already describes this
+	 * line: same file name and the file line number it predicts.  (Two
+	 * files can have the same current name after `#line n "name"'.)
+	 */
+	if (glno <= prevGlno || prevName == 0 || !fnameEqual(fname, prevName)
+	    || flno != prevFlno + (glno - prevGlno))
 	  
 	  sposGrowGloLineTbl(fname, flno, glno);
 	
